@@ -4,12 +4,10 @@ go 1.18
 
 require (
 	github.com/go-logr/logr v1.2.2
+	github.com/google/uuid v1.2.0
 	github.com/ovn-org/libovsdb v0.0.0
 )
 
-require (
-	github.com/go-logr/stdr v1.2.2 // indirect
-	github.com/google/uuid v1.2.0 // indirect
-)
+require github.com/go-logr/stdr v1.2.2 // indirect
 
 replace github.com/ovn-org/libovsdb => /repo
